@@ -14,6 +14,8 @@ def norm_attr(a):
     v = a.get("v")
     if v is None:
         v = "null"
+    if isinstance(v, int) and not isinstance(v, bool) and v > 2147483647:
+        v = 2147483647           # the specification's integers are 32-bit: larger dates are "far in the future"
     return {"name": a["name"], "idx": -1 if a.get("idx") in (None, -1) else a["idx"], "v": v}
 
 
@@ -58,7 +60,7 @@ def norm_p(op, p, ver, intern=None):
                 "w": {"method": (w or {}).get("method", "ENCRYPT"), "haskey": (w or {}).get("kuid") is not None,
                       "kuid": A.to_uid((w or {}).get("kuid")) if (w or {}).get("kuid") is not None else 0,
                       "hasmac": (w or {}).get("muid") is not None, "anames": bool((w or {}).get("anames")),
-                      "enc": (w or {}).get("enc", "NO_ENCODING")}}
+                      "enc": (w or {}).get("enc", "NO_ENCODING"), "nocp": bool((w or {}).get("nocp"))}}
     if op == "GetAttributes":
         return {"uid": uid, "names": list(p.get("names") or [])}
     if op in ("GetAttributeList", "Activate", "Destroy"):
